@@ -29,7 +29,8 @@ def plan(env, tier, seed):
     for t in tasks:
         t.update({"n": n, "seed": seed, "binname": "x_core"})
     for t in list(tasks):
-        tasks.append(dict(t, bin=env[t["backend"]]["bins"]["x_core_nostd"], binname="x_core_nostd", n=max(10, n // 4)))
+        if "x_core_nostd" in env[t["backend"]]["bins"]:      # absent when the no_std build failed (reported as inconclusive)
+            tasks.append(dict(t, bin=env[t["backend"]]["bins"]["x_core_nostd"], binname="x_core_nostd", n=max(10, n // 4)))
         tasks.append(dict(t, bin=env[t["backend"]]["bins"]["x_core_release"], binname="x_core_release", n=max(10, n // 4)))
     if tier == "thorough":
         import genuniverse
